@@ -32,7 +32,7 @@ func runC07(x *Ctx) {
 	x.C.Rule("C07.R1", "field bijection token <-> model <-> schema; optional fields serialised exactly when set", 8)
 	x.C.Rule("C07.R2", "codec pairing by function name", 2)
 	x.C.Rule("C07.R3", "key-algorithm tables", 3)
-	x.C.Rule("C07.R4", "constructors bound every serialised timestamp like the decoder", 9)
+	x.C.Rule("C07.R4", "constructors bound every serialised timestamp like the decoder; validate reads time bounds at wire resolution", 11)
 	x.C.Rule("C07.R5", "construct-side counterparts of decode-side validators", 5)
 	x.C.Rule("C07.R6", "generic decoder = typed decoders", 1)
 	x.C.Rule("C07.R7", "encoders return the codec's fresh output", 3)
@@ -385,6 +385,67 @@ func timestampBounds(x *Ctx) {
 				"the constructor rejects "+fld+" below -(2^53-1) seconds")
 		}
 	}
+	// validate runs on construction (sub-second instants) and on decoding (whole seconds: the wire format keeps
+	// Unix() only). It may look at a time bound only at wire resolution - nil or not, and Unix() - or a token the
+	// constructor accepted can be refused when it is read back (or the reverse).
+	for _, pk := range []string{"token/delegation", "token/invocation"} {
+		val := x.fn("C07.R4", "(*"+pk+".Token).validate")
+		if val == nil {
+			continue
+		}
+		flds := timeFields(x, pk, "Token")
+		mentions := func(t *paths.Term) string {
+			// a time field used other than under Unix() / a nil test
+			found := ""
+			var walk func(t *paths.Term)
+			walk = func(t *paths.Term) {
+				if t == nil || found != "" {
+					return
+				}
+				if t.Op == "call" && (t.Name == "(time.Time).Unix" || t.Name == "(time.Time).String" || t.Name == "(time.Time).Format") {
+					return
+				}
+				for _, f := range flds {
+					if t.String() == "*recv."+f {
+						found = f
+						return
+					}
+				}
+				for _, a := range t.Args {
+					walk(a)
+				}
+			}
+			walk(t)
+			return found
+		}
+		bad := ""
+		for _, p := range x.pathsQuiet(val) {
+			for _, fc := range p.Facts {
+				if f := mentions(fc.Atom); f != "" {
+					bad += fmt.Sprintf("validate decides on %s, which reads %s at full resolution (the sealed form keeps whole seconds)\n", fc.Atom, f)
+				}
+			}
+			p.InstrsIn(func(in ssa.Instruction, c *paths.Ctx) {
+				call, ok := in.(*ssa.Call)
+				if !ok {
+					return
+				}
+				ct := c.Term(call)
+				if ct == nil || (ct.Op != "call" && ct.Op != "invoke") {
+					return
+				}
+				if strings.HasPrefix(ct.Name, "fmt.") || strings.HasPrefix(ct.Name, "errors.") || ct.Name == "(time.Time).Unix" || ct.Name == "(time.Time).String" || ct.Name == "(time.Time).Format" {
+					return
+				}
+				for _, a := range ct.Args {
+					if f := mentions(a); f != "" {
+						bad += fmt.Sprintf("%s: validate passes %s at full resolution to %s (the sealed form keeps whole seconds)\n", x.P.Pos(call.Pos()), f, ct.Name)
+					}
+				}
+			})
+		}
+		x.C.Obl("C07.R4", "wire-resolution:"+pk, x.pos(val), "validate looks at the time bounds only through nil tests and Unix()", bad == "", dedupLines(bad))
+	}
 	// decode side is C04.R4; here: the same constants are used
 	x.C.Obl("C07.R4", "same-constants", "-", "both sides use limits.MaxInt53 / MinInt53", maxN == 1<<53-1 && minN == -(1<<53-1), "")
 }
@@ -556,7 +617,10 @@ func keysPairedWithValues(x *Ctx) {
 			for _, in := range b.Instrs {
 				switch v := in.(type) {
 				case *ssa.FieldAddr:
-					if isContainer(v.X.Type()) && paths.FieldName(v.X.Type().Underlying().(*types.Pointer).Elem().Underlying().(*types.Struct).Field(v.Field)) == "Keys" {
+					if fn := ""; isContainer(v.X.Type()) && func() bool {
+						fn = paths.FieldName(v.X.Type().Underlying().(*types.Pointer).Elem().Underlying().(*types.Struct).Field(v.Field))
+						return fn == "Keys" || fn == "Values"
+					}() {
 						for _, r := range *v.Referrers() {
 							if st, ok := r.(*ssa.Store); ok && st.Addr == ssa.Value(v) {
 								touches = true
@@ -589,12 +653,22 @@ func keysPairedWithValues(x *Ctx) {
 		}
 		type ev struct{ base, key string }
 		bad, n, aliased := "", 0, ""
+		touchesValues := false
 		for _, p := range x.pathsQuiet(f) {
 			var appends, updates []ev
 			p.InstrsIn(func(in ssa.Instruction, c *paths.Ctx) {
 				switch v := in.(type) {
 				case *ssa.Store:
 					at := c.Term(v.Addr)
+					if at.Op == "fieldaddr" && at.Name == "Values" && isFieldOfContainer(v.Addr, isContainer) && at.Args[0].Op != "alloc" {
+						// the map of a container is its own: made here or cloned, never another container's map
+						val := c.Term(v.Val)
+						if !(val.Op == "make" || val.IsNil() || (val.Op == "call" && strings.HasPrefix(val.Name, "maps.Clone["))) {
+							aliased += fmt.Sprintf("%s: %s.Values is assigned %s: the container would share its map with another one (an Add on either shows in both)\n", load.ShortName(f), at.Args[0], val)
+						}
+						touchesValues = true
+						return
+					}
 					if at.Op != "fieldaddr" || at.Name != "Keys" || !isContainer(v.Addr.(*ssa.FieldAddr).X.Type()) || at.Args[0].Op == "alloc" {
 						return
 					}
@@ -652,7 +726,7 @@ func keysPairedWithValues(x *Ctx) {
 		if aliased != "" {
 			bad += aliased
 		}
-		if n > 0 || bad != "" {
+		if n > 0 || bad != "" || touchesValues {
 			x.C.Obl("C07.R8", "paired:"+load.ShortName(f), x.pos(f), "keys are appended to the key list exactly when new in the map, together with their value", bad == "", dedupLines(bad))
 		}
 	}
